@@ -22,7 +22,7 @@ ASSUMPTIONS = [
     "with zero total weight the plain mean of log2 is the expected value",
     "sem/ci boundaries are generated with exact zeros or a margin >= 1e-6 (no float ties at log2 +- 1.96*sem = 0)",
 ]
-BUDGET_S = {"quick": 200, "thorough": 1200}
+BUDGET_S = {"quick": 600, "thorough": 2400}
 
 FILTER_LISTS = [list(p) for k in (1, 2, 3) for p in itertools.permutations(["cn", "ci", "sem", "ampdel"], k)
                 if not ("ci" in p and "sem" in p)]
